@@ -2,10 +2,37 @@
 Single-fault mutation of valid designs; the specification (Spec/WfDesign.v, evaluated in Coq) must call the
 mutant faulty, and then elaborate, to_proto and netlist must all raise."""
 import json, copy
-from . import core, design as D
+from . import core, design as D, c02b as B
+from .core import cz, cstr
 
 IMPORTS = ("Require Import Hdl21.Base.PyInt Hdl21.Spec.PySlice Hdl21.Model.Slice Hdl21.Model.Resolve Hdl21.Base.Design "
-           "Hdl21.Spec.WfDesign Hdl21.Corr.C03 Hdl21.Corr.C02.")
+           "Hdl21.Spec.WfDesign Hdl21.Spec.C02BundleWf Hdl21.Corr.C03 Hdl21.Corr.C02.")
+ENTRY = ["elaborate", "to_proto", "netlist"]
+
+
+class Printer(D.ModPrinter):
+    """design.ModPrinter plus the leaf `orphanref`: a port of an Instance that no Module owns."""
+
+    def expr(self, e, ncw):
+        if e[0] == "orphanref":
+            return f"(XSig {self.leaf_id(('or', json.dumps(e[1]), e[2]), 'LRef \"?orphan\" ' + cstr(e[2]))}%N {cz(ncw)})"
+        return super().expr(e, ncw)
+
+
+def c_design(design):
+    mods = core.clist(design["mods"], lambda md: Printer(design, md).module())
+    return f"{{| d_mods := {mods}; d_top := {design['top']}%nat |}}"
+
+
+def site_kind(d, s):
+    """what kind of connection the fault is planted on (measured per class in the evidence)"""
+    mi, ii, ci = s
+    x = d["mods"][mi]["insts"][ii]
+    c = x["conns"][ci][1]
+    k = {"sig": "signal", "sl": "slice", "cat": "concat", "ref": "port-ref", "nc": "no-connect"}[c[0]]
+    if k == "signal":
+        k = "bus" if (D.sig_width(d["mods"][mi], c[1]) or 1) > 1 else "scalar"
+    return k + ("@array" if x["n"] > 0 else "")
 
 
 def sites(design):
@@ -91,7 +118,7 @@ def m_index(r, d, s):
     mi, ii, ci = s
     md = d["mods"][mi]; x = md["insts"][ii]; c = x["conns"][ci]
     w = conn_width(d, md, x, c)
-    if w != 1 or x["n"] > 0 or not is_plain(c):
+    if w != 1 or not is_plain(c):
         return None
     n, sw = r.choice(pool_of(md))
     bad = r.choice([["i", sw], ["i", -sw - 1], ["i", 2 * sw + 1], ["s", sw, sw + 1, None] if False else ["i", sw + 1]])
@@ -103,7 +130,7 @@ def m_empty(r, d, s):
     mi, ii, ci = s
     md = d["mods"][mi]; x = md["insts"][ii]; c = x["conns"][ci]
     w = conn_width(d, md, x, c)
-    if x["n"] > 0 or not is_plain(c):
+    if not is_plain(c):
         return None
     # a concatenation of the right width one of whose parts is an empty slice
     n, sw = r.choice(pool_of(md))
@@ -116,7 +143,7 @@ def m_orphan(r, d, s):
     mi, ii, ci = s
     md = d["mods"][mi]; x = md["insts"][ii]; c = x["conns"][ci]
     w = conn_width(d, md, x, c)
-    if x["n"] > 0:
+    if x["n"] > 0 and not is_plain(c):
         return None
     kind = r.random()
     if kind < 0.4:
@@ -144,6 +171,22 @@ def m_foreignref(r, d, s):
     if not cands:
         return None
     c[1] = ["foreignref"] + list(r.choice(cands))
+    return d
+
+
+def m_orphan_inst(r, d, s):
+    """a reference to a port of an Instance that was never added to any Module"""
+    mi, ii, ci = s
+    md = d["mods"][mi]; x = md["insts"][ii]; c = x["conns"][ci]
+    w = conn_width(d, md, x, c)
+    if x["n"] > 0:
+        return None
+    cands = [(["prim", k, 1], p) for k, ps in D.PRIM_PORTS.items() for p in ps if w == 1]
+    cands += [(["mod", mj], q) for mj in range(mi) for q, qw, _ in d["mods"][mj]["ports"] if qw == w]
+    if not cands:
+        return None
+    of, q = r.choice(cands)
+    c[1] = ["orphanref", of, q]
     return d
 
 
@@ -222,7 +265,7 @@ def m_array_missing(r, d, s):
 
 
 MUTATORS = dict(width=m_width, width_ref=m_width_ref, missing=m_missing, extra=m_extra, badref=m_badref, index=m_index,
-                empty=m_empty, orphan=m_orphan, foreignref=m_foreignref, nc_ref=m_nc_ref, cycle=m_cycle, unnamed=m_unnamed,
+                empty=m_empty, orphan=m_orphan, orphan_inst=m_orphan_inst, foreignref=m_foreignref, nc_ref=m_nc_ref, cycle=m_cycle, unnamed=m_unnamed,
                 nameclash=m_nameclash, array_width=m_array_width, array_missing=m_array_missing)
 
 
@@ -239,52 +282,55 @@ def reachable(d):
     return seen
 
 
-def run(run, tier, seed, replay=None):
-    quick = tier == "quick"
-    nbase = 120 if quick else 1500
-    per_class = 1 if quick else 4
-    muts, meta = [], []
-    if replay is not None:
-        muts, meta = [replay["case"]], [dict(cls=replay.get("cls", "?"), base=-1)]
-    else:
-        for k in range(nbase):
-            r = core.rng(seed, "C02", "base", k)
-            base = D.gen_design(r, size=r.choice([1, 2, 2, 3]))
-            reach = reachable(base)
-            ss = [s for s in sites(base) if s[0] in reach]      # faults in unreachable modules are not faults of the design
-            if not ss:
-                continue
-            for cls, f in MUTATORS.items():
-                for j in range(per_class):
-                    rr = core.rng(seed, "C02", cls, k * 16 + j)
-                    m = f(rr, copy.deepcopy(base), rr.choice(ss))
-                    if m is not None:
-                        muts.append(m); meta.append(dict(cls=cls, base=k))
-    outs = core.run_worker_sharded("c02", [dict(design=m, entry=["elaborate", "to_proto", "netlist"]) for m in muts])
-    accepted = [any(v[0] == "accepted" for v in o.values()) for o in outs]
-    cases = [f"({D.c_design(m)}, {core.cbool(a)})" for m, a in zip(muts, accepted)]
-    bad = core.coq_eval_cases("C02", "mutants", IMPORTS, "design * bool", cases, "run_cases chk_c02", chunk=80)
-    cls_codes = dict(core.coq_eval_cases("C02", "classes", IMPORTS, "design * bool", cases, "classes", chunk=80))
-    code = dict(bad)
-    not_faulty = [i for i in range(len(muts)) if code.get(i) == 9]
+def _accepted_by(o):
+    return [k for k, v in o.items() if v[0] == "accepted"]
+
+
+def _mutant_stream(run, name, kind, muts, meta, mutators, printer, chk, classes, replay):
+    """Run the implementation on every mutant, evaluate the specification in Coq, report."""
+    outs = core.run_worker_sharded("c02", [dict(design=m, kind=kind, entry=ENTRY) for m in muts])
+    accepted = [bool(_accepted_by(o)) for o in outs]
+    ctype = "design * bool" if kind == "design" else "bdesign * bool"
+    cases = [f"({printer(m)}, {core.cbool(a)})" for m, a in zip(muts, accepted)]
+    fid = name.replace("-", "_")
+    fc = "fault_class" if kind == "design" else "fault_class_b"
+    pairs = dict(core.coq_eval_cases("C02", fid, IMPORTS, ctype, cases, f"both {chk} {fc}", chunk=60))
+    code = {i: v // 1000 for i, v in pairs.items()}
+    cls_codes = {i: v % 1000 % 500 for i, v in pairs.items()}
+    n_tied = sum(1 for v in pairs.values() if v % 1000 >= 500)
     per = {}
     for i, mt in enumerate(meta):
-        e = per.setdefault(mt["cls"], dict(mutants=0, not_faulty_by_spec=0, accepted_by_impl=0, spec_error_codes={}))
+        e = per.setdefault(mt["cls"], dict(mutants=0, not_faulty_by_spec=0, accepted_by_impl=0, top=0, deep=0,
+                                           spec_error_codes={}, site_kinds={}))
         if code.get(i) == 9:
             e["not_faulty_by_spec"] += 1
             continue
         e["mutants"] += 1
+        e["top" if mt.get("top") else "deep"] += 1
+        sk = mt.get("site_kind", "?")
+        e["site_kinds"][sk] = e["site_kinds"].get(sk, 0) + 1
         ec = str(cls_codes.get(i, 0))
         e["spec_error_codes"][ec] = e["spec_error_codes"].get(ec, 0) + 1
         if code.get(i) == 1:
             e["accepted_by_impl"] += 1
     faulty = [i for i in range(len(muts)) if code.get(i) != 9]
-    run.stream("single-fault-mutants", len(faulty), len({json.dumps(muts[i], sort_keys=True) for i in faulty}),
-               per_class=per, dropped_not_faulty=len(not_faulty),
-               rule="every counted mutant is faulty by Spec/WfDesign (evaluated in Coq); distinct by mutant design; classes per the statement")
-    for cls in MUTATORS:
+    run.stream(name, len(faulty), len({json.dumps(muts[i], sort_keys=True) for i in faulty}),
+               per_class=per, dropped_not_faulty=len(muts) - len(faulty), model_tied_cases=n_tied,
+               model_disagrees=sum(1 for c in code.values() if c == 2),
+               rule="every counted mutant is faulty by the specification (Spec/WfDesign.v resp. Spec/C02BundleWf.v, evaluated "
+                    "in Coq); distinct by mutant design; one class per fault kind of the statement; top/deep = fault planted "
+                    "in the top module / below it; site_kinds = kind of connection the fault sits on")
+    for cls in mutators:                      # fail closed: every fault class must really have been exercised
         if replay is None and per.get(cls, {}).get("mutants", 0) == 0:
             run.violation(f"C02:coverage:{cls}", f"no faulty mutant of class {cls} was generated", dict(kind="coverage"), found_input=False)
+        elif replay is None and tier_deep_required(cls) and per[cls]["deep"] == 0:
+            run.violation(f"C02:coverage-deep:{cls}", f"class {cls} was never planted below the top module", dict(kind="coverage"), found_input=False)
+    v2 = sorted([i for i in range(len(muts)) if code.get(i) == 2], key=lambda i: len(json.dumps(muts[i])))
+    if v2:
+        i = v2[0]
+        run.violation("C02:tie:" + json.dumps(muts[i], sort_keys=True), "Model/C02Checks.v and the implementation disagree on acceptance",
+                      dict(kind="model-vs-impl", cls=meta[i]["cls"], stream=name, case=muts[i], impl=outs[i], count=len(v2)),
+                      found_input=any(c == 1 for c in code.values()))
     v1 = sorted([i for i in faulty if code.get(i) == 1], key=lambda i: len(json.dumps(muts[i])))
     seen_cls = set()
     for i in v1:
@@ -292,19 +338,145 @@ def run(run, tier, seed, replay=None):
         if cls in seen_cls:
             continue
         seen_cls.add(cls)
-        who = [k for k, v in outs[i].items() if v[0] == "accepted"]
+        who = _accepted_by(outs[i])
         if cls == "nameclash" and who == ["elaborate"]:
             # one finding for the call site, whatever the design: elaborate() alone never looks at export names
             run.violation("C02:nameclash:elaborate-accepts", "elaborate() accepts a design whose only fault is a module-name clash",
                           dict(kind="impl-violates-spec", cls=cls, case=muts[i], impl=outs[i], accepted_by=who))
             seen_cls.discard(cls)
-            if any(meta[j]["cls"] == cls and [k for k, v in outs[j].items() if v[0] == "accepted"] != ["elaborate"] for j in v1):
+            if any(meta[j]["cls"] == cls and _accepted_by(outs[j]) != ["elaborate"] for j in v1):
                 continue
             seen_cls.add(cls)
             continue
         run.violation(f"C02:{cls}:" + json.dumps(muts[i], sort_keys=True), f"faulty design (class {cls}) accepted by {who}",
-                      dict(kind="impl-violates-spec", cls=cls, case=muts[i], impl=outs[i], accepted_by=who,
+                      dict(kind="impl-violates-spec", cls=cls, stream=name, case=muts[i], impl=outs[i], accepted_by=who,
                            failing_cases_of_class=sum(1 for j in v1 if meta[j]["cls"] == cls)))
     if muts:
-        run.sample(dict(cls=meta[0]["cls"], mutant=muts[0], impl=outs[0]))
-    run.coverage["traces_validated_against_impl"] = len(faulty)
+        run.sample(dict(stream=name, cls=meta[0]["cls"], mutant=muts[0], impl=outs[0]))
+    return len(faulty)
+
+
+def tier_deep_required(cls):
+    return cls not in ("unnamed", "nameclash", "cycle")      # module-level classes have no top/deep site
+
+
+# pinned-tree witnesses and past failures (DESIGN.md section 7 item 8 and the two defects repaired by fixes/C02-1, C02-2)
+def _corpus_b():
+    bundles = [dict(name="Diff", sigs=[["p", 1], ["n", 1]]), dict(name="B1", sigs=[["x", 2], ["y", 1]])]
+    leaf = dict(name="Inner", ports=[], bports=[["bp", 1]], sigs=[["t", 1]], binsts=[],
+                insts=[dict(name="r0", n=0, pair=False, of=["prim", "R", 1], conns=[["p", ["x", ["bref", "bp", "y"]]], ["n", ["x", ["sig", "t"]]]])])
+    ls = dict(name="Leaf", ports=[["a", 1], ["v", 1]], bports=[], sigs=[], binsts=[],
+              insts=[dict(name="r0", n=0, pair=False, of=["prim", "R", 1], conns=[["p", ["x", ["sig", "a"]]], ["n", ["x", ["sig", "v"]]]])])
+
+    def top(conn, of=0, pair=False, port="bp", more=()):
+        t = dict(name="Top", ports=[], bports=[], sigs=[["a", 2], ["c", 1], ["w3", 3]], binsts=[["d", 0]],
+                 insts=[dict(name="i0", n=0, pair=pair, of=["mod", of], conns=[[port, conn]] + list(more))])
+        return dict(bundles=copy.deepcopy(bundles), mods=[copy.deepcopy(leaf), copy.deepcopy(ls), t], top=2)
+    sig = lambda n: ["sig", n]
+    return [
+        ("b_anon_width", top(["anon", [["x", sig("w3")], ["y", sig("c")]]])),                    # pinned: exported
+        ("b_anon_extra", top(["anon", [["x", sig("a")], ["y", sig("c")], ["z", sig("c")]]])),    # fixes/C02-1
+        ("b_anon_extra", top(["anon", [["p", sig("c")], ["n", ["sl", sig("a"), ["i", 0]]], ["q", sig("c")]]], of=1, pair=True,
+                             port="a", more=[["v", ["x", sig("c")]]])),                            # fixes/C02-2
+    ]
+
+
+def _corpus():
+    """DESIGN.md section 7 item 8: `2 * Two(a=s)` with b unconnected; an out-of-range index."""
+    two = dict(name="Two", ports=[["a", 1, "none"], ["b", 1, "none"]], sigs=[],
+               insts=[dict(name="r0", n=0, of=["prim", "R", 1], conns=[["p", ["sig", "a"]], ["n", ["sig", "b"]]])])
+    arr = dict(name="Top", ports=[], sigs=[["s", 4]], insts=[dict(name="i0", n=2, of=["mod", 0], conns=[["a", ["sl", ["sig", "s"], ["i", 0]]]])])
+    oor = dict(name="Top", ports=[], sigs=[["s", 4]],
+               insts=[dict(name="i0", n=0, of=["mod", 0], conns=[["a", ["sl", ["sig", "s"], ["i", 4]]], ["b", ["sl", ["sig", "s"], ["i", -5]]]])])
+    return [("array_missing", dict(mods=[two, arr], exts=[], top=1)), ("index", dict(mods=[copy.deepcopy(two), oor], exts=[], top=1))]
+
+
+def run(run, tier, seed, replay=None):
+    quick = tier == "quick"
+    nbase = 120 if quick else 500
+    nbbase = 70 if quick else 300
+    per_class = 1 if quick else 2
+    if replay is not None:
+        kind = "bdesign" if replay.get("stream") == "bundle-mutants" else "design"
+        meta = [dict(cls=replay.get("cls", "?"), top=True)]
+        if kind == "design":
+            _mutant_stream(run, "single-fault-mutants", "design", [replay["case"]], meta, MUTATORS, c_design, "chk_c02", "classes", replay)
+        else:
+            _mutant_stream(run, "bundle-mutants", "bdesign", [replay["case"]], meta, B.MUTATORS, B.c_bdesign, "chk_c02b", "classes_b", replay)
+        return
+    # ---- stream 1: the valid base designs themselves (the implementation must accept what the specification accepts)
+    bases = [None] * nbase
+    for k in range(nbase):
+        r = core.rng(seed, "C02", "base", k)
+        simple = k % 3 == 0            # every third base design lies in the fragment Model/C02Checks.v is tied on
+        bases[k] = D.gen_design(r, size=r.choice([1, 2, 2, 3]), refs=not simple, ncs=not simple)
+    bbases = [B.gen_bdesign(core.rng(seed, "C02", "bbase", k)) for k in range(nbbase)]
+    o1 = core.run_worker_sharded("c02", [dict(design=m, entry=ENTRY) for m in bases])
+    o2 = core.run_worker_sharded("c02", [dict(design=m, kind="bdesign", entry=ENTRY) for m in bbases])
+    # netlisting refuses physical primitives (Mos, Bipolar, Diode, ...) by design: only designs built from ideal
+    # elements and external modules have to be netlistable; every valid design has to elaborate and export
+    def need(m):
+        ideal = all(x["of"][0] != "prim" or x["of"][1] in ("R", "C") for k in reachable(m) for x in m["mods"][k]["insts"])
+        return 3 if ideal else 2
+    n_netlistable = sum(1 for m in bases if need(m) == 3)
+    c1 = [f"({c_design(m)}, {core.cbool(len([w for w in _accepted_by(o) if w != 'netlist' or need(m) == 3]) == need(m))})" for m, o in zip(bases, o1)]
+    c2 = [f"({B.c_bdesign(m)}, {core.cbool(len(_accepted_by(o)) == 3)})" for m, o in zip(bbases, o2)]
+    bad1 = core.coq_eval_cases("C02", "base", IMPORTS, "design * bool", c1, "run_cases chk_base", chunk=60)
+    bad2 = core.coq_eval_cases("C02", "bbase", IMPORTS, "bdesign * bool", c2, "run_cases chk_base_b", chunk=60)
+    feats = {}
+    for m in bases:
+        for f, v in D.features(m).items():
+            feats[f] = feats.get(f, 0) + int(v)
+    run.stream("valid-base-designs", len(bases) + len(bbases),
+               len({json.dumps(m, sort_keys=True) for m in bases}) + len({json.dumps(m, sort_keys=True) for m in bbases}),
+               core_designs=len(bases), bundle_designs=len(bbases), core_designs_netlistable=n_netlistable, rejected_by_impl=sum(1 for _, c in bad1 + bad2 if c == 10),
+               invalid_by_spec=sum(1 for _, c in bad1 + bad2 if c == 11), model_disagrees=sum(1 for _, c in bad1 if c == 2),
+               core_designs_in_model_fragment=sum(1 for k in range(nbase) if k % 3 == 0), features_core=feats,
+               rule="a generated design counts when the specification (evaluated in Coq) calls it valid; it is non-trivial when it has at "
+                    "least one instance connection (all do); each must be accepted by elaborate, to_proto and netlist")
+    for lst, ds, outs, nm in ((bad1, bases, o1, "core"), (bad2, bbases, o2, "bundle")):
+        lst = sorted(lst, key=lambda ic: len(json.dumps(ds[ic[0]])))
+        for i, c in lst[:1]:
+            what = {10: "a design that is valid by the specification is rejected by the implementation",
+                    11: "the generator of valid designs produced a design the specification calls faulty",
+                    2: "Model/C02Checks.v rejects a valid design that the implementation accepts"}[c]
+            run.violation(f"C02:base-{nm}-{c}:" + json.dumps(ds[i], sort_keys=True), what,
+                          dict(kind="spec-vs-impl-on-valid-design", case=ds[i], impl=outs[i], code=c, count=len(lst)), found_input=False)
+    # ---- stream 2: single-fault mutants of the core designs
+    muts, meta = [], []
+    for cls, m in _corpus():
+        muts.append(m); meta.append(dict(cls=cls, base=-1, top=True, site_kind="corpus"))
+    for k, base in enumerate(bases):
+        reach = reachable(base)
+        ss = [s for s in sites(base) if s[0] in reach]      # faults in unreachable modules are not faults of the design
+        if not ss:
+            continue
+        deep = [s for s in ss if s[0] != base["top"]]
+        for cls, f in MUTATORS.items():
+            for j in range(per_class):
+                rr = core.rng(seed, "C02", cls, k * 16 + j)
+                site = rr.choice(deep) if deep and rr.random() < 0.5 else rr.choice(ss)
+                m = f(rr, copy.deepcopy(base), site)
+                if m is not None:
+                    muts.append(m); meta.append(dict(cls=cls, base=k, top=site[0] == base["top"], site_kind=site_kind(base, site)))
+    n1 = _mutant_stream(run, "single-fault-mutants", "design", muts, meta, MUTATORS, c_design, "chk_c02", "classes", None)
+    # ---- stream 3: single-fault mutants of the bundle designs
+    muts, meta = [], []
+    for cls, m in _corpus_b():
+        muts.append(m); meta.append(dict(cls=cls, base=-1, top=True, site_kind="corpus"))
+    for k, base in enumerate(bbases):
+        ss = B.sites(base)
+        deep = [s for s in ss if s[0] != base["top"]]
+        for cls, f in B.MUTATORS.items():
+            for j in range(per_class + 1):
+                rr = core.rng(seed, "C02", cls, k * 16 + j)
+                m = None
+                for attempt in range(6):                    # many classes apply to few sites: look for one
+                    site = rr.choice(deep) if deep and rr.random() < 0.5 else rr.choice(ss)
+                    m = f(rr, copy.deepcopy(base), site)
+                    if m is not None:
+                        break
+                if m is not None:
+                    muts.append(m); meta.append(dict(cls=cls, base=k, top=site[0] == base["top"], site_kind=B.site_kind(base, site)))
+    n2 = _mutant_stream(run, "bundle-mutants", "bdesign", muts, meta, B.MUTATORS, B.c_bdesign, "chk_c02b", "classes_b", None)
+    run.coverage["traces_validated_against_impl"] = n1 + n2 + len(bases) + len(bbases)
